@@ -501,6 +501,9 @@ func c14Run(args [][]string) []string {
 			ev := e
 			if e.t == t && mine == nil {
 				mine = &ev
+				if ev.code == 5 && phase[t] >= 1 && phase[t] <= 3 && anyPending() {
+					needLock = true // an error return from inside the critical section (a refused seek or write) gives the flock back as well
+				}
 			} else if e.code == 1 && pending[e.t] && lock == nil {
 				lock = &ev
 			} else {
